@@ -26,6 +26,7 @@ HoleT(ty) == [t |-> "Hole", ty |-> ty]
 A == HoleT("any")  L == HoleT("leaf")  M == HoleT("mid")  S == HoleT("small")
 Mid(h) == {
   N("Sum", << h, h >>), N("Product", << h, h >>), N("Sum", << h, L, h >>), N("Product", << L, h, L >>),
+
   B("Power", h, KI(2)), B("Power", h, KI(3)), B("Power", h, KI(-1)), B("Power", h, KI(-2)),
   B("Power", h, KI(0)), B("Power", h, KI(1)), B("Quotient", h, L), B("Quotient", L, h),
   B("Quotient", h, h) }
@@ -49,8 +50,15 @@ Collapse(h) == {
   N("Product", << N("Sum", << KI(0), N("Product", << h, KI(3) >>) >>), KI(2) >>),
   N("Product", << KI(3), B("Power", N("Product", << KI(2), h >>), KI(1)) >>) }
 
+\* a non-sum factor in front of / between / behind two or three sum factors
+Sm == HoleT("sum")
+Lead == { N("Product", << L, Sm, Sm >>), N("Product", << Sm, L, Sm >>), N("Product", << Sm, Sm, L >>),
+          N("Product", << L, Sm, L, Sm >>), N("Product", << L, Sm, Sm, Sm >>),
+          N("Sum", << N("Product", << L, Sm, Sm >>), L >>), B("Power", N("Product", << L, Sm, Sm >>), KI(2)) }
+
 PoolFor(ty) ==
-    CASE ty = "any"   -> Leaves \cup (IF Tier = "quick" THEN D1Q ELSE D1)
+    CASE ty = "sum" -> { N("Sum", << x, KI(1) >>), N("Sum", << y, pp >>), N("Sum", << x, KI(-1), y >>), x }
+      [] ty = "any"   -> Leaves \cup (IF Tier = "quick" THEN D1Q ELSE D1)
       [] ty = "leaf"  -> IF Tier = "quick" THEN { x, KI(2) } ELSE { x, pp, KI(2), KI(-1) }
       [] ty = "mid"   -> Mid(S)
       [] ty = "small" -> SmallLeaves \cup (IF Tier = "quick" THEN {} ELSE { N("Sum", << x, KI(1) >>), N("Product", << KI(2), x >>) })
@@ -64,7 +72,7 @@ FirstHoleTy(e) ==
                       LET r == FirstHoleTy(ks[i]) IN IF r # "" THEN r ELSE Go(i + 1)
          IN Go(1)
 
-Roots == Mid(A) \cup Other(A) \cup Top(M) \cup Collapse(A) \cup Leaves \cup D1
+Roots == Mid(A) \cup Other(A) \cup Top(M) \cup Collapse(A) \cup Lead \cup Leaves \cup D1
 Init == tree \in Roots
 Next == /\ NHoles(tree) > 0
         /\ \E s \in PoolFor(FirstHoleTy(tree)) : tree' = FillFirst(tree, s)
